@@ -201,6 +201,7 @@ func run_simulation(args []string) {
 
 			data.AddToFloat64Array(destData, srcData)
 			nextLink++
+			verifTrace("link", i)
 		}
 		verifTrace("linked", i)
 		genLinkEnd := time.Now()
